@@ -147,7 +147,10 @@ def rule_early_exit(ctx):
                     continue
                 if thr < mb:
                     bad.append("under %s the scan stops at bonus ≥ %d but bonus_for can return %d" % (name, thr, mb))
-            if bad:
+            if bad and all("not evaluable" in b_ for b_ in bad):
+                # the threshold is a value this rule cannot evaluate (a field of a helper struct, say): undecided, not wrong
+                ctx.fail_closed("%s: the threshold of a `cannot get better` early exit (%s) cannot be evaluated under the constructible configurations" % (site(fn, bi), show(e[3])[:80]))
+            elif bad:
                 ctx.violation(key, site(fn, bi),
                               "`can't get better than this` early exit compares the bonus with %s: %s — a later, better-placed occurrence is never examined (the best-placed occurrence must win)" % (show(e[3]), "; ".join(bad)))
             else:
@@ -237,7 +240,17 @@ def rule_prefix_additive(ctx):
     if len(sr) != 1:
         raise Inconclusive("setup: expected one score_row call")
     bi, t = sr[0]
-    pb = st.expr_of_operand(t["args"][-1])
+    # the prefix bonus is the parameter of score_row called `prefix_bonus` (the last one in the tree as it is)
+    srb = facts.body(M, "fuzzy_optimal::<impl matrix::MatcherDataView<'_, H>>::score_row")
+    pidx = None
+    if srb is not None:
+        srf = fn_of(srb)
+        for l_ in range(1, srf.arg_count + 1):
+            if srf.names.get(l_) == "prefix_bonus":
+                pidx = l_ - 1
+    if pidx is None or pidx >= len(t["args"]):
+        raise Inconclusive("score_row no longer takes a `prefix_bonus` parameter: how setup hands the prefix bonus to the first row is not decided by this rule")
+    pb = st.expr_of_operand(t["args"][pidx])
     bds = Bounds(ctx, st, 0)
     if pb[0] != "local":
         ctx.violation("setup|prefix-bonus|shape", site(st, bi), "prefix bonus passed to score_row is %s" % show(pb))
@@ -618,6 +631,8 @@ def rule_prefix_decay(ctx):
                 return False
         return True
     cands = [l for l in cands if not is_copy(l)]
+    # a carrier is state: a `mut` binding (or parameter); an immutable `let prefix_bonus = carrier / SCALE` is a derived value
+    cands = [l for l in cands if fn.b["locals"][l].get("mut") or l <= fn.arg_count and len(fn.defs.get(l, [])) > 1]
     n = 0
     carriers = [("local", L) for L in cands] + ([("field", None)] if (f_reads or f_decay) else [])
     for ckind, L in carriers:
@@ -735,6 +750,14 @@ def rule_char_eq_exact(ctx):
     r(ctx)
 
 
+def rule_scan_window(ctx):
+    """The optimal score is the maximum over the cells of the LAST row only: cells below the column the last row was
+    written from belong to shorter prefixes of the needle or to earlier calls, a maximum that includes them can exceed
+    the score of every alignment (shared with C10.scan-window)."""
+    from props.c10 import rule_scan_window as r
+    r(ctx)
+
+
 def rules(ctx):
     ctx.run_rule("C04.char-eq-exact", rule_char_eq_exact)
     ctx.run_rule("C04.live-config", rule_live_config)
@@ -744,3 +767,4 @@ def rules(ctx):
     ctx.run_rule("C04.cell-equations", rule_cell_equations)
     ctx.run_rule("C04.slab-choice", rule_slab_choice)
     ctx.run_rule("C04.prefix-decay", rule_prefix_decay)
+    ctx.run_rule("C04.scan-window", rule_scan_window)
